@@ -238,7 +238,7 @@ func runXE2E(casesPath, tracePath string, shard, shards int) {
 	}
 	tr := vh.NewTrace(tracePath)
 	defer tr.Close()
-	idx, ncase := 0, 0
+	idx, ncase, ntimeout := 0, 0, 0
 	err := vh.ReadCases(casesPath, func(raw json.RawMessage) error {
 		idx++
 		if idx%shards != shard {
@@ -358,6 +358,11 @@ func runXE2E(casesPath, tracePath string, shard, shards int) {
 		}
 		tr.Emit(vh.Ev{"ev": "xend", "ups": nup, "resps": len(respEvents), "how": how})
 		ncase++
+		if how == "timeout" {
+			if ntimeout++; ntimeout >= 3 {
+				return fmt.Errorf("%d bursts ended on the harness deadline: giving up (no verdict)", ntimeout)
+			}
+		}
 		return nil
 	})
 	vh.Must(err, "xe2e cases")
